@@ -354,3 +354,5 @@ func vInt(v any) int {
 	}
 	return 0
 }
+
+func vStack() string { return string(debug.Stack()) }
